@@ -12,7 +12,9 @@ for id in $ids; do
     git -C /repo apply /verif/$p
     out=$(./bin/govc check --property $id --tier quick 2>&1); rc=$?
     git -C /repo checkout -- . 
-    if [ $rc -eq 1 ]; then pass=$((pass+1)); echo "CAUGHT $id $p :: $(echo "$out" | grep -m1 VIOLATION | sed 's/.*obligation=//' | cut -c1-110)"; else fail=$((fail+1)); echo "MISSED $id $p (exit $rc) :: $(echo "$out" | tail -1 | cut -c1-160)"; fi
+    if [ -f "$(dirname $p)/BENIGN" ] || [[ "$p" == *benign* ]]; then
+      if [ $rc -eq 0 ]; then pass=$((pass+1)); echo "QUIET  $id $p (benign edit, check stayed at exit 0)"; else fail=$((fail+1)); echo "FALSE-ALARM $id $p (exit $rc) :: $(echo "$out" | grep -m1 VIOLATION | cut -c1-160)"; fi
+    elif [ $rc -eq 1 ]; then pass=$((pass+1)); echo "CAUGHT $id $p :: $(echo "$out" | grep -m1 VIOLATION | sed 's/.*obligation=//' | cut -c1-110)"; else fail=$((fail+1)); echo "MISSED $id $p (exit $rc) :: $(echo "$out" | tail -1 | cut -c1-160)"; fi
   done
 done
 echo "selftest: caught=$pass missed=$fail"
